@@ -96,6 +96,18 @@ Theorem C19_transfer_old_rule_refuted :
 Proof. exact transfer_old_refuted. Qed.
 Print Assumptions C19_transfer_old_rule_refuted.
 
+(* MigrateInstance with transmit=flatten onto another store: the destination holds, at V only, what the source
+   shows at V (transmit=all copies every stored entry unchanged: the run compares entry by entry). *)
+Theorem C19_migrate_flatten_reads_equal :
+  forall onp es V, dst_read (flatten_at onp es V) V = src_read onp es V.
+Proof. exact flatten_reads_equal. Qed.
+Print Assumptions C19_migrate_flatten_reads_equal.
+
+Theorem C19_migrate_flatten_only_at_V :
+  forall onp es V v e, In (v, e) (flatten_at onp es V) -> v = V.
+Proof. exact flatten_only_at. Qed.
+Print Assumptions C19_migrate_flatten_only_at_V.
+
 Example C19_transfer_example :
   let es := [(1%nat, TVal [5]); (2%nat, TVal [5]); (3%nat, TTomb); (4%nat, TVal []); (6%nat, TVal [9])] in
   let onp := fun v => negb (Nat.eqb v 4) in
